@@ -35,9 +35,10 @@ func checkC14(c *Ctx, r *Report) {
 	renderDM(c, r)
 	renderOneD(c, r)
 	renderMargins(c, r)
+	checkOnlyPainter(c, r)
 	checkMarginNonNegative(c, r)
 	checkQRMarginHint(c, r)
-	checkForwardOrder(c, r, 10)
+	checkForwardOrder(c, r, 0) // no minimum: wrappers that share no parameter names with their callee are not instances
 	checkEncodeHintsUsed(c, r, 4)
 	checkWriterStateless(c, r)
 	checkWholeOps(c, r) // SetRegion's own bit arithmetic (same obligations as under C16)
@@ -50,7 +51,7 @@ func declareRenderRules(r *Report, n int) {
 	r.Rule("R-SIZE", "output matrix size term: QR/1-D max(requested, symbol + quiet zone) per axis (1-D height max(1, requested)); Data Matrix: requested size when the symbol fits in both directions, the bare symbol size otherwise", n)
 	r.Rule("R-SCALE", "module size term: the integer quotient out / (symbol + quiet zone), minimum over both axes for 2-D", n)
 	r.Rule("R-PAD", "padding term: (out - symbol*scale) / 2 per axis (Data Matrix: zero when the request is smaller than the symbol)", n)
-	r.Rule("R-BLOCK", "each set module (i, j) is painted as SetRegion(padX + i*scale, padY + j*scale, scale, scale) (1-D: (pad + i*scale, 0, scale, outHeight)) exactly when the input module is set; loops cover the whole symbol; the output starts cleared", n)
+	r.Rule("R-BLOCK", "each set module (i, j) is painted as SetRegion(padX + i*scale, padY + j*scale, scale, scale) (1-D: (pad + i*scale, 0, scale, outHeight)) exactly when the input module is set; loops cover the whole symbol; the output starts cleared; no other call writes into the output matrix and no matrix is returned before the module loop", n)
 }
 
 func pureGetter(o types.Object) bool {
@@ -654,7 +655,7 @@ func checkMarginNonNegative(c *Ctx, r *Report) {
 
 // R-MARGIN (QR hint handling): the quiet zone that reaches the renderer
 func checkQRMarginHint(c *Ctx, r *Report) {
-	r.Rule("R-MARGINHINT", "QRCodeWriter.Encode, folded with the symbol encoder and the renderer replaced by recorders, hands renderResult a quiet zone of 4 modules when no MARGIN hint is given and exactly the hinted value otherwise - for the values 0, 1, 2, 4, 7, 20 given as an int and as a decimal string (an explicit 0 is a quiet zone of 0 modules) - together with the requested width and height", 1)
+	r.Rule("R-MARGINHINT", "QRCodeWriter.Encode, folded with the symbol encoder and the renderer replaced by recorders, hands renderResult a quiet zone of 4 modules when no MARGIN hint is given and exactly the hinted value otherwise - for the values 0, 1, 2, 4, 7, 20 given as an int and as a decimal string (an explicit 0 is a quiet zone of 0 modules) - together with the requested width and height; each case alone and together with an ERROR_CORRECTION hint (the options do not shadow each other)", 1)
 	fd, p := c.funcDeclOf("qrcode", "QRCodeWriter.Encode")
 	key := "qrcode.QRCodeWriter.Encode/margin"
 	if fd == nil {
@@ -679,10 +680,26 @@ func checkQRMarginHint(c *Ctx, r *Report) {
 	}
 	type stop struct{}
 	bad := ""
+	ecKey, okEC := constValIn(c, "", "EncodeHintType_ERROR_CORRECTION")
+	// every case once alone and once together with an ERROR_CORRECTION hint: the options are independent
+	var all []tc
 	for _, cs := range cases {
+		all = append(all, cs)
+		if okEC {
+			all = append(all, tc{cs.hint, cs.want, cs.desc + " together with ERROR_CORRECTION \"M\""})
+		}
+	}
+	for _, cs := range all {
 		hints := &Val{K: VNil}
-		if cs.hint != nil {
-			hints = &Val{K: VStruct, Fields: map[string]*Val{fmt.Sprint(mk): cs.hint}}
+		withEC := strings.Contains(cs.desc, "ERROR_CORRECTION")
+		if cs.hint != nil || withEC {
+			hints = &Val{K: VStruct, Fields: map[string]*Val{}}
+			if cs.hint != nil {
+				hints.Fields[fmt.Sprint(mk)] = cs.hint
+			}
+			if withEC {
+				hints.Fields[fmt.Sprint(ecKey)] = vstr("M")
+			}
 		}
 		var got []int64
 		h := &rpf{unroll: 100}
@@ -707,6 +724,8 @@ func checkQRMarginHint(c *Ctx, r *Report) {
 			switch fn.Name() {
 			case "Encoder_encode":
 				return []*Val{{K: VStruct, Ptr: true, Fields: map[string]*Val{}}, {K: VNil}}, true
+			case "ErrorCorrectionLevel_ValueOf":
+				return []*Val{vint(1), {K: VNil}}, true
 			case "Atoi":
 				s := rpfCurrent.expr(call.Args[0])
 				if s.K == VStr {
@@ -894,3 +913,67 @@ func checkEncodeHintsUsed(c *Ctx, r *Report, min int) {
 
 // functions that take the hints only to satisfy an interface and have no option to honour
 var frozenHintIgnorers = map[string]string{}
+
+// R-BLOCK (only painter): nothing but the one SetRegion of the module loop writes into the output matrix
+func checkOnlyPainter(c *Ctx, r *Report) {
+	for _, t := range [][2]string{{"qrcode", "renderResult"}, {"datamatrix", "convertByteMatrixToBitMatrix"}, {"oned", "onedWriter_renderResult"}} {
+		fd, p := c.funcDeclOf(t[0], t[1])
+		key := t[0] + "." + t[1] + "/only-painter"
+		if fd == nil {
+			r.AnchorLost("R-BLOCK", key, "renderer not found")
+			continue
+		}
+		r.Analysed(key)
+		mut := map[string]bool{"Set": true, "Unset": true, "Flip": true, "FlipAll": true, "SetRegion": true, "SetRow": true, "Xor": true, "Rotate90": true, "Rotate180": true}
+		var writes []string
+		nRegion := 0
+		walkCalls(p, fd.Body, func(cs *callSite) {
+			fn, ok := cs.Callee.(*types.Func)
+			if !ok || !isMethodNamed(cs.Callee, "", "BitMatrix", fn.Name()) {
+				return
+			}
+			if fn.Name() == "SetRegion" {
+				nRegion++
+			} else if mut[fn.Name()] {
+				writes = append(writes, fn.Name()+" at "+c.pos(cs.Call.Pos()))
+			}
+		})
+		// a successful return comes after the painting
+		early := ""
+		var paintTop ast.Stmt
+		for _, call := range findCalls(p, fd.Body, func(o types.Object) bool { return isMethodNamed(o, "", "BitMatrix", "SetRegion") }) {
+			for _, st := range fd.Body.List {
+				if containsNode(st, call) {
+					paintTop = st
+				}
+			}
+		}
+		ast.Inspect(fd.Body, func(n ast.Node) bool {
+			if _, isLit := n.(*ast.FuncLit); isLit {
+				return false
+			}
+			rs, ok := n.(*ast.ReturnStmt)
+			if !ok || len(rs.Results) != 2 || paintTop == nil {
+				return true
+			}
+			if id, isI := ast.Unparen(rs.Results[1]).(*ast.Ident); isI && id.Name == "nil" {
+				if id0, isI0 := ast.Unparen(rs.Results[0]).(*ast.Ident); !(isI0 && id0.Name == "nil") {
+					if !(paintTop.Pos() < rs.Pos() && !containsNode(paintTop, rs)) {
+						early = "a matrix is returned at " + c.pos(rs.Pos()) + " without passing the module loop"
+					}
+				}
+			}
+			return true
+		})
+		bad := ""
+		switch {
+		case early != "":
+			bad = early
+		case len(writes) > 0:
+			bad = "the output matrix is also written by " + strings.Join(writes, ", ") + ": every pixel must come from the SetRegion of the module loop, whose terms the other rendering rules decide"
+		case nRegion != 1:
+			bad = fmt.Sprintf("%d SetRegion calls: a second painting path is not covered by the terms decided for the first", nRegion)
+		}
+		r.Check(bad == "", "R-BLOCK", key, c.pos(fd.Pos()), bad)
+	}
+}
